@@ -140,7 +140,7 @@ def run_check(pid, tier, seed):
         tie_failures.append(('translator', e.what, e.detail))
 
     # 2. the proof obligations of this property
-    targets = prop['targets']
+    targets = prop['targets'] + ['lib/Driver.vo', 'lib/Corr.vo']
     n_thm = 0
     if not tie_failures:
         ok, out = V.make(targets)
